@@ -7,6 +7,7 @@ from vf import canon, decomp, gen_ssb, model, render
 from vf.cut import BudgetExceeded, StepBudget, compile_text, decompile_ssbs
 
 BUDGET = 5_000_000
+WS_ROOT = "/tmp/vf-c11-ws"  # scratch workspaces (C12 sets its own root)
 
 
 def describe_exc(e: BaseException) -> dict:
@@ -78,7 +79,7 @@ def ws_base(item) -> str:
     import hashlib
 
     h = hashlib.sha1(json.dumps(item["case"], sort_keys=True, default=str).encode()).hexdigest()[:16]
-    return f"/tmp/vf-c11-ws/{h}"
+    return f"{WS_ROOT}/{h}"
 
 
 def open_ws(item):
@@ -87,12 +88,13 @@ def open_ws(item):
     return gen_macro.Workspace(item["case"], lambda p: render.render(p), base=ws_base(item))
 
 
-def ws_compile(item, which, compiler=None) -> dict:
+def ws_compile(item, which, compiler=None, ws=None, budget=True) -> dict:
     """which: "main" or the index of an imported file that is compiled as if it were the top-level file"""
     from vf import spec_tables as T
     from explorerscript.ssb_converting.ssb_compiler import ExplorerScriptSsbCompiler
 
-    ws = open_ws(item)
+    if ws is None:
+        ws = open_ws(item)
     import os
 
     if which == "main":
@@ -102,7 +104,10 @@ def ws_compile(item, which, compiler=None) -> dict:
         path, text = os.path.join(ws.base, fd["path"]), ws.texts[fd["path"]]
     c = compiler or ExplorerScriptSsbCompiler(T.PERF_VAR, ws.lookup_paths)
     try:
-        with StepBudget(BUDGET):
+        if budget:
+            with StepBudget(BUDGET):
+                c.compile(text, path)
+        else:
             c.compile(text, path)
     except BudgetExceeded:
         return {"raised": "BUDGET"}
@@ -174,3 +179,16 @@ def decompile_result_nobudget(built) -> dict:
     except Exception as e:  # noqa
         return describe_exc(e)
     return {"text": text, "source_map": sm.serialize()}
+
+
+def compile_result_nobudget_file(text: str, path: str) -> dict:
+    try:
+        c = compile_text(text, path)
+    except Exception as e:  # noqa
+        return describe_exc(e)
+    return {
+        "ops": json.loads(json.dumps(canon.canon_ops(c.routine_ops), default=str)),
+        "offsets": [[op.offset for op in r] for r in c.routine_ops],
+        "table": json.loads(json.dumps(model.real_routine_table(c.routine_infos, c.named_coroutines), default=str)),
+        "source_map": c.source_map.serialize(),
+    }
